@@ -204,6 +204,23 @@ func c07Carriers(res *engine.Result, sec *ref.PATSection, cc byte, allPIDs bool)
 			c07Verify(res, "packet+af-stuffing", cls, pat, &m, probes[:3], false)
 		}
 	}
+	// the shortest adaptation fields in front of the section: adaptation_field_length 0 (one stuffing byte,
+	// no flags byte) and 1 (flags byte only)
+	for _, L := range [...]int{183, 182} {
+		if len(payload) > L {
+			continue
+		}
+		pk := ref.CarryPayload(0, true, cc, ref.PadPayload(payload, L))
+		name := "packet+af-length-" + string(rune('0'+183-L))
+		if pat := newPAT(name, pk[:]); pat != nil {
+			c07Verify(res, name, cls, pat, &m, probes[:3], false)
+		}
+		if pat, err := psi.ReadPAT(bytes.NewReader(pk[:])); err != nil || pat == nil {
+			res.Failf("stream-1-"+name+"|"+cls+"|ReadPAT-error", "ReadPAT on a single PAT packet with adaptation_field_length %d: %v", 183-L, err)
+		} else {
+			c07Verify(res, "stream-1-"+name, cls, pat, &m, probes[:3], false)
+		}
+	}
 	pat, err := psi.ReadPAT(bytes.NewReader(pk1[:]))
 	if err != nil || pat == nil {
 		res.Failf("stream-1-packet|"+cls+"|ReadPAT-error", "ReadPAT on a single PAT packet: %v", err)
